@@ -196,7 +196,7 @@ func cmdVC(args []string) int {
 		if *ssaDump {
 			fn.WriteTo(os.Stdout)
 		}
-		res := RunFunction(p, fn)
+		res := RunFunctionAllGroups(p, fn)
 		if res.Err != "" {
 			fmt.Printf("INAPPLICABLE %s: %s\n", key, res.Err)
 		}
@@ -592,7 +592,7 @@ func cmdCheck(args []string) int {
 			continue
 		}
 		funcsUnder = append(funcsUnder, k)
-		res := RunFunction(p, fn)
+		res := RunFunctionAllGroups(p, fn)
 		if res.Err != "" {
 			inapplicable = append(inapplicable, k+": "+res.Err)
 			continue
@@ -885,4 +885,59 @@ func writeReplay(verif, prop string, r *oblResult, p *Program) replayInfo {
 
 func init() {
 	debugLoops = os.Getenv("GOVC_DEBUG") != ""
+}
+
+// contractGroups lists the proof groups that occur in a function's own contract.
+func contractGroups(c *FuncContract) map[string]bool {
+	gs := map[string]bool{}
+	if c == nil {
+		return gs
+	}
+	add := func(cs []*Clause) {
+		for _, x := range cs {
+			if x.Group != "" {
+				gs[x.Group] = true
+			}
+		}
+	}
+	add(c.Requires)
+	add(c.Ensures)
+	add(c.Assumes)
+	for _, ls := range c.Loops {
+		add(ls.Invariants)
+	}
+	return gs
+}
+
+// RunFunctionAllGroups runs the main pass and one pass per proof group that the function's contract or a callee's
+// preconditions mention; the obligations of all passes are returned together.
+func RunFunctionAllGroups(p *Program, fn *ssa.Function) *ExecResult {
+	activeGroup = ""
+	res := RunFunction(p, fn)
+	if res.Err != "" {
+		return res
+	}
+	gs := contractGroups(p.ContractOf(fn))
+	for g := range res.Exec.GroupsSeen {
+		gs[g] = true
+	}
+	var names []string
+	for g := range gs {
+		names = append(names, g)
+	}
+	sort.Strings(names)
+	for _, g := range names {
+		activeGroup = g
+		r2 := RunFunction(p, fn)
+		activeGroup = ""
+		if r2.Err != "" {
+			res.Err = "group " + g + ": " + r2.Err
+			return res
+		}
+		res.Obls = append(res.Obls, r2.Obls...)
+		for a := range r2.Exec.Assumed {
+			res.Exec.Assumed[a] = true
+		}
+	}
+	return res
 }
